@@ -46,7 +46,7 @@ def check(case):
         require(np.all(np.isfinite(T)), lambda: "%s not finite: %s" % (nm, np.asarray(T).tolist()))
     scale = np.abs(L0vv).max()
     require(scale > 0, "L0vv vanishes")
-    extra = []
+    extra = ["excluded_R40_not_pruned"] if case["setup"].get("not_pruned") == "R40" else []
 
     def resid(c):
         a, b, c_, d_ = evaluate(c, case)
@@ -87,6 +87,7 @@ def check(case):
 
 def run(ctx):
     ctx.corpus(check)
+    ctx.known(check)
     ctx.given(cases(), check, quick=60, thorough=1600, shrink=not ctx.quick)
 
 
